@@ -291,7 +291,7 @@ def run_case(case):
             mr, md = "init", line
         else:
             mr, md = line.split(" ", 1)
-            mr = mr[len("result="):]
+            mr = mr[len("result="):].split(";tape=")[0]
         rr = sort_ids(r); mr = sort_ids(mr)
         if mr == "unit" and rr.startswith("ids:"):
             pass
